@@ -63,9 +63,13 @@ func genC18(r *sim.Rng, rx map[string]string) *c18Case {
 	n := 1 + r.Intn(5)
 	for i := 0; i < n; i++ {
 		cb := c18Cb{}
-		switch r.Intn(4) {
+		switch r.Intn(5) {
 		case 0:
 			cb.Re = r.Pick([]string{"password_pattern", "prompt_pattern", "username_pattern"})
+		case 1:
+			// a text AND a pattern: the trigger holds when EITHER is there
+			cb.Re = r.Pick([]string{"password_pattern", "prompt_pattern", "username_pattern"})
+			cb.Contains = r.Pick(c18Needles)
 		default:
 			cb.Contains = r.Pick(c18Needles)
 		}
